@@ -78,4 +78,76 @@ theorem splitPathVersion_nongopkg (p pre maj : Bytes) (hg : isPrefixOfB (B "gopk
       obtain ⟨rfl, rfl, _⟩ := h
       simp
 
+theorem splitGopkgIn_ok (p pre maj : Bytes) (h : splitGopkgIn p = (pre, maj, true)) :
+    pre ++ maj = p ∧ isPrefixOfB (B "gopkg.in/") p = true ∧ PathSpec.GopkgMajor maj := by
+  unfold splitGopkgIn at h
+  split at h
+  · simp at h
+  · rename_i hpre
+    simp only [Bool.not_eq_eq_eq_not, Bool.not_true] at hpre
+    have hpre' : isPrefixOfB (B "gopkg.in/") p = true := by
+      cases hh : isPrefixOfB (B "gopkg.in/") p
+      · rw [hh] at hpre; simp at hpre
+      · rfl
+    -- the reversed path without the optional "-unstable"
+    have hrev1 : ∃ sfx : Bytes, (sfx = [] ∨ sfx = B "-unstable") ∧
+        (if hasSuffixB p (B "-unstable") = true then B "-unstable" else []) = sfx ∧
+        p = ((if hasSuffixB p (B "-unstable") = true then p.reverse.drop 9 else p.reverse)).reverse ++ sfx := by
+      cases hu : hasSuffixB p (B "-unstable")
+      · exact ⟨[], Or.inl rfl, by simp, by simp⟩
+      · refine ⟨B "-unstable", Or.inr rfl, by simp, ?_⟩
+        obtain ⟨t, ht⟩ := (isPrefixOfB_iff _ _).mp hu
+        have hlen : (B "-unstable").reverse.length = 9 := by decide +kernel
+        have : p.reverse.drop 9 = t := by rw [ht, ← hlen]; simp
+        simp only [if_true, this]
+        have := congrArg List.reverse ht
+        simpa using this
+    obtain ⟨sfx, hsfx, hsfx', hp⟩ := hrev1
+    dsimp only at h
+    rw [hsfx'] at h
+    generalize (if hasSuffixB p (B "-unstable") = true then p.reverse.drop 9 else p.reverse) = rev1 at h hp
+    have hsplit : rev1.takeWhile isDigit ++ rev1.dropWhile isDigit = rev1 := List.takeWhile_append_dropWhile
+    have hall : ∀ c ∈ rev1.takeWhile isDigit, isDigit c = true := by
+      intro c hc
+      exact List.all_eq_true.mp (List.all_takeWhile (l := rev1) (p := isDigit)) c hc
+    generalize rev1.takeWhile isDigit = digs at h hsplit hall
+    generalize rev1.dropWhile isDigit = rest at h hsplit
+    split at h
+    · simp at h
+    · rename_i hne
+      split at h
+      · rename_i pre'
+        split at h
+        · simp at h
+        · rename_i hc
+          simp only [Prod.mk.injEq] at h
+          obtain ⟨rfl, rfl, _⟩ := h
+          refine ⟨?_, hpre', digs.reverse, ⟨?_, ?_, ?_⟩, ?_⟩
+          · rw [hp, ← hsplit]; simp
+          · intro h; apply hne; simpa using h
+          · intro d hd
+            exact (isDigit_iff d).mp (hall d (by simpa using hd))
+          · intro h48
+            simp only [Bool.or_eq_true, not_or, Bool.not_eq_true, Bool.and_eq_false_iff] at hc
+            have hc2 := hc.2
+            have hnum : digs.reverse ≠ [] := by intro h; apply hne; simpa using h
+            have h2 : (46 :: 118 :: (digs.reverse ++ sfx))[2]? = some 48 := by
+              cases hd : digs.reverse with
+              | nil => exact absurd hd hnum
+              | cons x xs => rw [hd] at h48; simp at h48; simp [h48]
+            rcases hc2 with hc2 | hc2
+            · rw [h2] at hc2; simp at hc2
+            · have hB : B ".v0" = [46, 118, 48] := by decide +kernel
+              simp only [bne_eq_false_iff_eq, hB, List.cons.injEq, true_and] at hc2
+              cases hd : digs.reverse with
+              | nil => exact absurd hd hnum
+              | cons x xs =>
+                rw [hd] at hc2
+                simp at hc2
+                simp [hc2.1, hc2.2.1]
+          · rcases hsfx with rfl | rfl
+            · left; simp
+            · right; rfl
+      · simp at h
+
 end ModVerif.Module
